@@ -1050,6 +1050,8 @@ func checkC08(w *World, r *Report) {
 	r.Try(func() { ruleGraphSeesAllDependencies(w, r, "R08.6") })
 	r.Rule("R08.7", 1, "a descriptor's dependency list is the analyzer's list, unfiltered: what is injected is what is checked for presence")
 	r.Try(func() { ruleDependenciesUnfiltered(w, r, "R08.7") })
+	r.Rule("R08.10", 1, "a resolvable set is not rejected as circular: the degree recomputation counts every edge (a dependency listed twice is two edges on both sides of Kahn's counter)")
+	r.Try(func() { ruleDegreeCountsEveryEdge(w, r, "R08.10") })
 	r.Rule("R08.9", 3, "a resolvable set is not rejected for a cycle it does not contain: group placeholders are linked only to the members of their own element type and group name")
 	r.Try(func() { ruleGroupLinkGraph(w, r, "R08.9") })
 	r.Rule("R08.8", 1, "a resolvable set is not rejected for a cycle it does not contain: the edge table and the nodes' own dependency lists describe the same edges")
